@@ -87,6 +87,7 @@ Proof.
     destruct (transaction_counters _ _ _ _ _ _ _ H1) as (Hs & C1 & F1).
     rewrite HV in H. cbn [andb] in H.
     destruct (e_cap E <? _); [discriminate|].
+    destruct (negb (t_gidok (fst s))); [discriminate|].
     inv_bind H as [[c2 ss2] gb2] eq H2. injection H as <- <- <-.
     assert (Hn1 : l_count c1 = (n + 1) mod W64).
     { rewrite C1, Hn. apply N.add_mod_idemp_l, W64_nz. }
